@@ -460,7 +460,17 @@ func writeEvidence(def *CheckDef, tier string, seed int, cov map[string]interfac
 		cov = map[string]interface{}{"states": 0, "transitions": 0, "traces_validated_against_impl": 0, "evaluations": 0, "distinct_nontrivial": 0,
 			"samples": []interface{}{map[string]interface{}{"note": "run did not start"}}, "inconclusive_reasons": inconclusive}
 	}
-	ev := evidence{PropertyID: def.ID, Tier: tier, Seed: seed, Level: "model_checking", Coverage: cov, Assumptions: def.Assumptions, WallS: wall.Seconds(), Violations: violations}
+	assumptions := append([]string{}, def.Assumptions...)
+	if len(coScaled) > 0 {
+		seen := map[string]bool{}
+		for _, c := range coScaled {
+			if !seen[c] {
+				seen[c] = true
+				assumptions = append(assumptions, "scaled geometry: constant expressions equal to the original data-file block size were scaled along with it - "+c)
+			}
+		}
+	}
+	ev := evidence{PropertyID: def.ID, Tier: tier, Seed: seed, Level: "model_checking", Coverage: cov, Assumptions: assumptions, WallS: wall.Seconds(), Violations: violations}
 	b, _ := json.MarshalIndent(ev, "", " ")
 	evDir := filepath.Join(verifDir, "evidence")
 	if d := os.Getenv("VERIF_EVIDENCE_DIR"); d != "" {
